@@ -18,22 +18,23 @@ theorem E.ind {P : E → Prop}
     (hcomma : ∀ l, (∀ a ∈ l, P a) → P (.comma l))
     (hcall : ∀ f args, P f → (∀ a ∈ args, P a) → P (.call f args))
     (hdot : ∀ x n, P x → P (.dot x n)) (hindex : ∀ x y, P x → P y → P (.index x y))
-    (hgroup : ∀ x, P x → P (.group x)) : ∀ e : E, P e
+    (hgroup : ∀ x, P x → P (.group x)) (hopt : ∀ a e, P e → P (.opt a e)) : ∀ e : E, P e
   | .var n => hvar n
   | .lit l => hlit l
-  | .unary op x => hun op x (E.ind hvar hlit hun hbin hcond hcomma hcall hdot hindex hgroup x)
-  | .bin op x y => hbin op x y (E.ind hvar hlit hun hbin hcond hcomma hcall hdot hindex hgroup x)
-      (E.ind hvar hlit hun hbin hcond hcomma hcall hdot hindex hgroup y)
-  | .cond c x y => hcond c x y (E.ind hvar hlit hun hbin hcond hcomma hcall hdot hindex hgroup c)
-      (E.ind hvar hlit hun hbin hcond hcomma hcall hdot hindex hgroup x)
-      (E.ind hvar hlit hun hbin hcond hcomma hcall hdot hindex hgroup y)
-  | .comma l => hcomma l (E.indL hvar hlit hun hbin hcond hcomma hcall hdot hindex hgroup l)
-  | .call f args => hcall f args (E.ind hvar hlit hun hbin hcond hcomma hcall hdot hindex hgroup f)
-      (E.indL hvar hlit hun hbin hcond hcomma hcall hdot hindex hgroup args)
-  | .dot x n => hdot x n (E.ind hvar hlit hun hbin hcond hcomma hcall hdot hindex hgroup x)
-  | .index x y => hindex x y (E.ind hvar hlit hun hbin hcond hcomma hcall hdot hindex hgroup x)
-      (E.ind hvar hlit hun hbin hcond hcomma hcall hdot hindex hgroup y)
-  | .group x => hgroup x (E.ind hvar hlit hun hbin hcond hcomma hcall hdot hindex hgroup x)
+  | .unary op x => hun op x (E.ind hvar hlit hun hbin hcond hcomma hcall hdot hindex hgroup hopt x)
+  | .bin op x y => hbin op x y (E.ind hvar hlit hun hbin hcond hcomma hcall hdot hindex hgroup hopt x)
+      (E.ind hvar hlit hun hbin hcond hcomma hcall hdot hindex hgroup hopt y)
+  | .cond c x y => hcond c x y (E.ind hvar hlit hun hbin hcond hcomma hcall hdot hindex hgroup hopt c)
+      (E.ind hvar hlit hun hbin hcond hcomma hcall hdot hindex hgroup hopt x)
+      (E.ind hvar hlit hun hbin hcond hcomma hcall hdot hindex hgroup hopt y)
+  | .comma l => hcomma l (E.indL hvar hlit hun hbin hcond hcomma hcall hdot hindex hgroup hopt l)
+  | .call f args => hcall f args (E.ind hvar hlit hun hbin hcond hcomma hcall hdot hindex hgroup hopt f)
+      (E.indL hvar hlit hun hbin hcond hcomma hcall hdot hindex hgroup hopt args)
+  | .dot x n => hdot x n (E.ind hvar hlit hun hbin hcond hcomma hcall hdot hindex hgroup hopt x)
+  | .index x y => hindex x y (E.ind hvar hlit hun hbin hcond hcomma hcall hdot hindex hgroup hopt x)
+      (E.ind hvar hlit hun hbin hcond hcomma hcall hdot hindex hgroup hopt y)
+  | .group x => hgroup x (E.ind hvar hlit hun hbin hcond hcomma hcall hdot hindex hgroup hopt x)
+  | .opt a e => hopt a e (E.ind hvar hlit hun hbin hcond hcomma hcall hdot hindex hgroup hopt e)
 theorem E.indL {P : E → Prop}
     (hvar : ∀ n, P (.var n)) (hlit : ∀ l, P (.lit l))
     (hun : ∀ op x, P x → P (.unary op x)) (hbin : ∀ op x y, P x → P y → P (.bin op x y))
@@ -41,12 +42,12 @@ theorem E.indL {P : E → Prop}
     (hcomma : ∀ l, (∀ a ∈ l, P a) → P (.comma l))
     (hcall : ∀ f args, P f → (∀ a ∈ args, P a) → P (.call f args))
     (hdot : ∀ x n, P x → P (.dot x n)) (hindex : ∀ x y, P x → P y → P (.index x y))
-    (hgroup : ∀ x, P x → P (.group x)) : ∀ l : List E, ∀ a ∈ l, P a
+    (hgroup : ∀ x, P x → P (.group x)) (hopt : ∀ a e, P e → P (.opt a e)) : ∀ l : List E, ∀ a ∈ l, P a
   | [] => fun _ h => by cases h
   | b :: t => fun a h => by
     cases h with
-    | head => exact E.ind hvar hlit hun hbin hcond hcomma hcall hdot hindex hgroup b
-    | tail _ h' => exact E.indL hvar hlit hun hbin hcond hcomma hcall hdot hindex hgroup t a h'
+    | head => exact E.ind hvar hlit hun hbin hcond hcomma hcall hdot hindex hgroup hopt b
+    | tail _ h' => exact E.indL hvar hlit hun hbin hcond hcomma hcall hdot hindex hgroup hopt t a h'
 end
 
 theorem snoc_of_getLast? {α : Type} (l : List α) (a : α) (h : l.getLast? = some a) : l = l.dropLast ++ [a] := by
@@ -111,6 +112,8 @@ theorem bind_ite {α β : Type} (c : Bool) (m n : M α) (f : α → M β) :
 @[simp] theorem eval_nullish (x y : E) :
     eval H (.bin .nullish x y) = bindM (eval H x) (fun v => if isNullish v then eval H y else retM v) := by
   simp [eval]
+@[simp] theorem eval_opt (a : String) (e : E) :
+    eval H (.opt a e) = bindM (getVar a) (fun v => if isNullish v then retM .undef else eval H e) := by simp [eval]
 @[simp] theorem eval_cond (c x y : E) :
     eval H (.cond c x y) = bindM (eval H c) (fun v => if truthy v then eval H x else eval H y) := by simp [eval]
 @[simp] theorem eval_comma (l : List E) :
